@@ -51,16 +51,29 @@ func (c Cfg) ModelStride() int {
 	return c.Stride
 }
 
+// keyLitP with plain=true avoids keys whose zcode bytes are empty (the int64 0 and the empty
+// string), which together with null range starts hit finding C14:lister-order:empty-bytes-key;
+// used for the C13 / C15 plans.
 func keyLit(r *rand.Rand, mixed bool) (zsonLit, atom string) {
+	return keyLitP(r, mixed, false)
+}
+
+func keyLitP(r *rand.Rand, mixed, plain bool) (zsonLit, atom string) {
 	if mixed && r.Intn(4) == 0 {
 		ss := []string{"a", "b", "ab", "", "z"}
 		s := ss[r.Intn(len(ss))]
+		if plain && s == "" {
+			s = "c"
+		}
 		if s == "" {
 			return `""`, "s-"
 		}
 		return fmt.Sprintf("%q", s), "s" + hex.EncodeToString([]byte(s))
 	}
 	n := r.Intn(9) - 2
+	if plain && n == 0 {
+		n = 7
+	}
 	return fmt.Sprint(n), fmt.Sprintf("i%d", n)
 }
 
@@ -80,7 +93,7 @@ func GenAlphabet(r *rand.Rand, cfg Cfg, plain bool) (texts, keys []string) {
 		}
 	}
 	for i := 0; len(texts) < n && i < 200; i++ {
-		lit, atom := keyLit(r, mixed)
+		lit, atom := keyLitP(r, mixed, plain)
 		switch cfg.Key {
 		case "this":
 			add(lit, atom)
